@@ -1220,11 +1220,14 @@ class RTCSctpTransport(AsyncIOEventEmitter):
                 self._advertised_rwnd += len(message[2])
                 await self._receive(*message)
 
-        # prune obsolete chunks
-        for stream_id, inbound_stream in self._inbound_streams.items():
+        # prune obsolete chunks, which may unblock messages held behind them
+        for stream_id, inbound_stream in list(self._inbound_streams.items()):
             self._advertised_rwnd += inbound_stream.prune_chunks(
                 chunk.cumulative_tsn
             )
+            for message in inbound_stream.pop_messages():
+                self._advertised_rwnd += len(message[2])
+                await self._receive(*message)
 
     async def _receive_sack_chunk(self, chunk: SackChunk) -> None:
         """
